@@ -108,6 +108,55 @@ fn sess_api(g: &mut Gen) {
     }
 }
 
+/// handshake datagrams duplicated / retransmitted before the answer arrives (the acceptor answers the
+/// same request twice: its token must stay the one it handed out first), then a fair suffix: the
+/// connector must become ready and a first chunk must get through
+fn sess_handshake_dup(g: &mut Gen, variant: usize) {
+    g.line("new");
+    g.connect(0);
+    match variant % 4 {
+        0 => {
+            // the first request is duplicated by the network
+            g.deliver(0, 0);
+            g.deliver(0, 0);
+        }
+        1 => {
+            // the first request is delayed beyond the retransmission: two requests reach the acceptor
+            g.line("time 500");
+            g.line("a tick");
+            for n in g.undelivered(0) {
+                g.deliver(0, n);
+            }
+        }
+        2 => {
+            // first answer arrives, the connector proceeds, then the duplicate request is answered again
+            g.deliver(0, 0);
+            if let Some(&n) = g.undelivered(1).first() {
+                g.deliver(1, n);
+            }
+            g.deliver(0, 0);
+        }
+        _ => {
+            // three copies, the answers delivered in reverse order
+            g.deliver(0, 0);
+            g.deliver(0, 0);
+            g.deliver(0, 0);
+            let und = g.undelivered(1);
+            for &n in und.iter().rev() {
+                g.deliver(1, n);
+            }
+        }
+    }
+    if !alive(g) {
+        return;
+    }
+    g.fair_suffix(30);
+    if alive(g) && g.w.eps[0].kind() == "Online" {
+        send(g, 0, true, &[0x68, 0x69]);
+        g.fair_suffix(30);
+    }
+}
+
 /// many small chunks queued without a flush (the 8-bit chunk counter), then a resend of all of them
 fn sess_many_small(g: &mut Gen, vital: bool, size: usize, count: usize) {
     g.line("new");
@@ -399,6 +448,9 @@ fn gen_all(tier: &str, seed: u64, out: &mut dyn std::io::Write) {
     };
     if tier != "search" || seed % 4 == 0 {
         sess_api(&mut g);
+        for v in 0..8 {
+            sess_handshake_dup(&mut g, v);
+        }
         for &(vital, size, count) in &[(false, 0usize, 700usize), (false, 1, 300), (true, 0, 480), (true, 1, 300), (true, 3, 256), (false, 4, 255)] {
             sess_many_small(&mut g, vital, size, count);
         }
